@@ -1666,9 +1666,20 @@ _dispatch_barrier_trysync_or_async_f_complete(dispatch_lane_t dq,
 
 	_dispatch_sync_function_invoke_inline(dq, ctxt, func);
 	if (flags & DISPATCH_BARRIER_TRYSYNC_SUSPEND) {
-		uint64_t dq_state = os_atomic_sub2o(dq, dq_state,
-				DISPATCH_QUEUE_SUSPEND_INTERVAL, relaxed);
-		if (!_dq_state_is_suspended(dq_state)) {
+		uint64_t old_state, new_state;
+		os_atomic_rmw_loop2o(dq, dq_state, old_state, new_state, relaxed, {
+			if (unlikely(os_sub_overflow(old_state,
+					DISPATCH_QUEUE_SUSPEND_INTERVAL, &new_state))) {
+				// concurrent dispatch_suspend() calls moved the inline suspend
+				// count to the side count: give our suspension back the way
+				// dispatch_resume() does, which transfers it back first
+				os_atomic_rmw_loop_give_up({
+					_dispatch_lane_resume(dq, false);
+					return dx_wakeup(dq, 0, wflags);
+				});
+			}
+		});
+		if (!_dq_state_is_suspended(new_state)) {
 			wflags |= DISPATCH_WAKEUP_CONSUME_2;
 		}
 	}
